@@ -52,3 +52,57 @@ package asr
 //@ func asr.randomlyResolveNodeStates
 //@   requires node != nil
 //@   assigns elems("float64"), ghost(rand_count), ghost(rand_last), ghost(rand_range)
+
+// ---------------------------------------------------------------------------
+// DELTRAN, sequences (property C12): at every site a non-root inner node keeps exactly the states it shares with its
+// parent at that site; when it shares none, its states at that site are left as they are
+// ---------------------------------------------------------------------------
+
+//@ define siteok(seqs []*AncestralSequence, a int, b int, n int) bool = 0 <= a && a < len(seqs) && 0 <= b && b < len(seqs) && seqs[a] != nil && seqs[b] != nil && len(seqs[a].seq) == len(seqs[b].seq) && (forall j int :: {seqs[a].seq[j]} {seqs[b].seq[j]} 0 <= j && j < len(seqs[a].seq) ==> len(seqs[a].seq[j].counts) == n && len(seqs[b].seq[j].counts) == n && arr(seqs[a].seq[j].counts) != arr(seqs[b].seq[j].counts) && alloc_ok(seqs[a].seq[j].counts) && alloc_ok(seqs[b].seq[j].counts))
+//@ func asr.parsimonyDELTRAN
+//@   flag noframe
+//@   requires cur != nil && (prev != nil ==> siteok(seqs, cur.id, prev.id, len(charToIndex)))
+//@   loop 1
+//@     invariant [table_shape] prev != nil && siteok(seqs, cur.id, prev.id, len(charToIndex))
+//@   loop 2
+//@     invariant [own_states_copied_so_far] len(state.counts) == len(charToIndex) && fresh_arr(state.counts) && (forall k int :: {state.counts[k]} 0 <= k && k < len(state.counts) ==> state.counts[k] == (k <= rangeindex ? lold(ances.counts[k]) : 0.0))
+//@     invariant [table_shape] siteok(seqs, cur.id, prev.id, len(charToIndex)) && ances.counts == seqs[cur.id].seq[j].counts && 0 <= j && j < len(seqs[cur.id].seq) && !fresh_arr(ances.counts) && !fresh_arr(seqs[prev.id].seq[j].counts)
+//@     invariant [tables_untouched] (forall k int :: {ances.counts[k]} {seqs[prev.id].seq[j].counts[k]} 0 <= k && k < len(charToIndex) ==> ances.counts[k] == lold(ances.counts[k]) && seqs[prev.id].seq[j].counts[k] == lold(seqs[prev.id].seq[j].counts[k]))
+//@   loop 3
+//@     invariant [parent_states_added_so_far] len(state.counts) == len(charToIndex) && fresh_arr(state.counts) && (forall k int :: {state.counts[k]} 0 <= k && k < len(state.counts) ==> state.counts[k] == lold(ances.counts[k]) + (k <= rangeindex ? lold(seqs[prev.id].seq[j].counts[k]) : 0.0))
+//@     invariant [no_shared_state_seen_so_far_iff_flag] nullIntersection <==> (forall k int :: {state.counts[k]} 0 <= k && k <= rangeindex ==> state.counts[k] <= 1.0)
+//@     invariant [table_shape] siteok(seqs, cur.id, prev.id, len(charToIndex)) && ances.counts == seqs[cur.id].seq[j].counts && 0 <= j && j < len(seqs[cur.id].seq) && !fresh_arr(ances.counts) && !fresh_arr(seqs[prev.id].seq[j].counts)
+//@     invariant [tables_untouched] (forall k int :: {ances.counts[k]} {seqs[prev.id].seq[j].counts[k]} 0 <= k && k < len(charToIndex) ==> ances.counts[k] == lold(ances.counts[k]) && seqs[prev.id].seq[j].counts[k] == lold(seqs[prev.id].seq[j].counts[k]))
+//@   loop 4
+//@     invariant [sums_kept] len(state.counts) == len(charToIndex) && fresh_arr(state.counts) && (forall k int :: {state.counts[k]} 0 <= k && k < len(state.counts) ==> state.counts[k] == lold(state.counts[k]) && state.counts[k] == lold(ances.counts[k]) + lold(seqs[prev.id].seq[j].counts[k]))
+//@     invariant [node_keeps_exactly_the_states_shared_with_its_parent_at_this_site] forall k int :: {ances.counts[k]} 0 <= k && k < len(charToIndex) ==> ances.counts[k] == (k <= rangeindex ? (lold(ances.counts[k]) + lold(seqs[prev.id].seq[j].counts[k]) > 1.0 ? 1.0 : 0.0) : lold(ances.counts[k]))
+//@     invariant [table_shape] siteok(seqs, cur.id, prev.id, len(charToIndex)) && ances.counts == seqs[cur.id].seq[j].counts && 0 <= j && j < len(seqs[cur.id].seq) && !fresh_arr(ances.counts) && !fresh_arr(seqs[prev.id].seq[j].counts)
+//@     invariant [parent_untouched] (forall k int :: {seqs[prev.id].seq[j].counts[k]} 0 <= k && k < len(charToIndex) ==> seqs[prev.id].seq[j].counts[k] == lold(seqs[prev.id].seq[j].counts[k]))
+
+// ---------------------------------------------------------------------------
+// ACCTRAN, sequences (property C12): at every site every child of a node keeps exactly the states it shares with that
+// node at that site; when it shares none, its states at that site are left as they are
+// ---------------------------------------------------------------------------
+
+//@ func asr.parsimonyACCTRAN
+//@   flag noframe
+//@   requires cur != nil
+//@   requires forall i int :: {cur.neigh[i]} 0 <= i && i < len(cur.neigh) ==> cur.neigh[i] != nil && siteok(seqs, cur.id, cur.neigh[i].id, len(charToIndex))
+//@   loop 1
+//@     invariant [table_shape] cur != nil && (forall i int :: {cur.neigh[i]} 0 <= i && i < len(cur.neigh) ==> cur.neigh[i] != nil && siteok(seqs, cur.id, cur.neigh[i].id, len(charToIndex)))
+//@   loop 2
+//@     invariant [table_shape] cur != nil && child != nil && siteok(seqs, cur.id, child.id, len(charToIndex)) && (forall i int :: {cur.neigh[i]} 0 <= i && i < len(cur.neigh) ==> cur.neigh[i] != nil && siteok(seqs, cur.id, cur.neigh[i].id, len(charToIndex)))
+//@   loop 3
+//@     invariant [child_states_copied_so_far] len(state.counts) == len(charToIndex) && fresh_arr(state.counts) && (forall k int :: {state.counts[k]} 0 <= k && k < len(state.counts) ==> state.counts[k] == (k <= rangeindex ? lold(seqs[child.id].seq[j].counts[k]) : 0.0))
+//@     invariant [table_shape] siteok(seqs, cur.id, child.id, len(charToIndex)) && ances.counts == seqs[cur.id].seq[j].counts && 0 <= j && j < len(seqs[cur.id].seq) && !fresh_arr(ances.counts) && !fresh_arr(seqs[child.id].seq[j].counts)
+//@     invariant [tables_untouched] forall k int :: {ances.counts[k]} {seqs[child.id].seq[j].counts[k]} 0 <= k && k < len(charToIndex) ==> ances.counts[k] == lold(ances.counts[k]) && seqs[child.id].seq[j].counts[k] == lold(seqs[child.id].seq[j].counts[k])
+//@   loop 4
+//@     invariant [node_states_added_so_far] len(state.counts) == len(charToIndex) && fresh_arr(state.counts) && (forall k int :: {state.counts[k]} 0 <= k && k < len(state.counts) ==> state.counts[k] == lold(seqs[child.id].seq[j].counts[k]) + (k <= rangeindex ? lold(ances.counts[k]) : 0.0))
+//@     invariant [no_shared_state_seen_so_far_iff_flag] nullIntersection <==> (forall k int :: {state.counts[k]} 0 <= k && k <= rangeindex ==> state.counts[k] <= 1.0)
+//@     invariant [table_shape] siteok(seqs, cur.id, child.id, len(charToIndex)) && ances.counts == seqs[cur.id].seq[j].counts && 0 <= j && j < len(seqs[cur.id].seq) && !fresh_arr(ances.counts) && !fresh_arr(seqs[child.id].seq[j].counts)
+//@     invariant [tables_untouched] forall k int :: {ances.counts[k]} {seqs[child.id].seq[j].counts[k]} 0 <= k && k < len(charToIndex) ==> ances.counts[k] == lold(ances.counts[k]) && seqs[child.id].seq[j].counts[k] == lold(seqs[child.id].seq[j].counts[k])
+//@   loop 5
+//@     invariant [sums_kept] len(state.counts) == len(charToIndex) && fresh_arr(state.counts) && (forall k int :: {state.counts[k]} 0 <= k && k < len(state.counts) ==> state.counts[k] == lold(state.counts[k]) && state.counts[k] == lold(seqs[child.id].seq[j].counts[k]) + lold(ances.counts[k]))
+//@     invariant [child_keeps_exactly_the_states_shared_with_the_node_at_this_site] forall k int :: {seqs[child.id].seq[j].counts[k]} 0 <= k && k < len(charToIndex) ==> seqs[child.id].seq[j].counts[k] == (k <= rangeindex ? (lold(seqs[child.id].seq[j].counts[k]) + lold(ances.counts[k]) > 1.0 ? 1.0 : 0.0) : lold(seqs[child.id].seq[j].counts[k]))
+//@     invariant [table_shape] siteok(seqs, cur.id, child.id, len(charToIndex)) && ances.counts == seqs[cur.id].seq[j].counts && 0 <= j && j < len(seqs[cur.id].seq) && !fresh_arr(ances.counts) && !fresh_arr(seqs[child.id].seq[j].counts)
+//@     invariant [node_untouched] forall k int :: {ances.counts[k]} 0 <= k && k < len(charToIndex) ==> ances.counts[k] == lold(ances.counts[k])
